@@ -604,7 +604,7 @@ func Run(sc *Scenario, v Variant, stt *Stats) *Diff {
 	if err != nil {
 		return &Diff{Invariant: "Layout", Type: "message", Mode: mode(sc.Enc), Class: "sender-error", Detail: err.Error()}
 	}
-	if !bytes.Equal(got, want) {
+	if !bytes.Equal(got, want) && !doublesWithinOneUnit(got, want, vals, starts) {
 		off := 0
 		for off < len(got) && off < len(want) && got[off] == want[off] {
 			off++
@@ -638,6 +638,36 @@ func Run(sc *Scenario, v Variant, stt *Stats) *Diff {
 			Detail: fmt.Sprintf("value %d (%s), %d bytes cut after %v: %s (decodes correctly from a single frame)", i, vals[i], len(want), cuts, msg)}
 	}
 	return nil
+}
+
+// doublesWithinOneUnit: the statement fixes the scale (2^31-1) and the shape
+// (two integers) of a double, not how the scaled fraction is made integral
+// (HTCondor truncates). Bytes that differ from the reference only in the
+// fraction of a double, by less than one unit, are accepted.
+func doublesWithinOneUnit(got, want []byte, vals []Val, starts []int) bool {
+	if len(got) != len(want) {
+		return false
+	}
+	for i, v := range vals {
+		lo, hi := starts[i], len(want)
+		if i+1 < len(starts) {
+			hi = starts[i+1]
+		}
+		if bytes.Equal(got[lo:hi], want[lo:hi]) {
+			continue
+		}
+		if v.T != "double" || hi-lo != 16 {
+			return false
+		}
+		r := refcodec.C14Reader{B: got[lo:hi]}
+		f, _ := r.Int()
+		e, _ := r.Int()
+		frac, exp := math.Frexp(v.D)
+		if e != int64(exp) || f < math.MinInt32 || f > math.MaxInt32 || math.Abs(float64(f)-frac*refcodec.C14FracConst) >= 1 {
+			return false
+		}
+	}
+	return true
 }
 
 func clip(b []byte) []byte {
